@@ -6,14 +6,40 @@ open MythVerif.Wsq
 set_option maxHeartbeats 1000000 in
 theorem o_po2 (s s' : St) (t) : Inv s → s.opc = .po2 t → stepO s = some s' → Inv s' := by
   intro h heq hs
-  have hb := (h.po2 t heq).1
+  obtain ⟨hb, htop, hltt, _⟩ := h.po2 t heq
+  have hlen := h.len
+  have hlbase := h.lbase (by simp [heq, resetting])
+  have hwk3 := h.wk3
+  have hwkd := h.wkd
+  have hkeep : s.base + 1 < t → s.tr = true →
+      s.A.dropLast ≠ [] ∧ s.A.dropLast.head? = s.A.head? ∧ s.lb < s.top := by
+    intro h1 h2
+    simp [h2] at hlbase
+    have : 2 ≤ s.A.length := by omega
+    exact ⟨(dropLast_keep _ this).1, (dropLast_keep _ this).2, by omega⟩
   cases h
   simp only [stepO, heq, hb, viewBase_nil] at hs
   split at hs
-  · split at hs
-    all_goals (simp at hs; subst hs)
-    all_goals simp only [heq, ownerLocked, carry, resetting, ownerFlight] at *
-    all_goals tso_finish
+  · rename_i hlt
+    split at hs
+    · simp at hs; subst hs
+      simp only [heq, ownerLocked, carry, resetting, ownerFlight] at *
+      constructor
+      all_goals (try simp only [ownerLocked, carry, resetting, ownerFlight, upd_apply, applySto])
+      case wk3 =>
+        intro q b hq
+        obtain ⟨h1, h2, h3, h4, h5⟩ := hwk3 q b hq
+        obtain ⟨k1, k2, k3⟩ := hkeep hlt h2
+        exact ⟨h1, h2, k1, by rw [k2]; exact h4, Or.inl (by omega)⟩
+      case wkd =>
+        intro q b r hq
+        obtain ⟨h1, h2, h3, h4, h5⟩ := hwkd q b r hq
+        obtain ⟨k1, k2, k3⟩ := hkeep hlt h2
+        exact ⟨h1, h2, k1, by rw [k2]; exact h4, Or.inl (by omega)⟩
+      tso_rest
+    · simp at hs; subst hs
+      simp only [heq, ownerLocked, carry, resetting, ownerFlight] at *
+      tso_finish
   · simp at hs; subst hs
     simp only [heq, ownerLocked, carry, resetting, ownerFlight] at *
     tso_finish
